@@ -17,7 +17,7 @@ let i_nat x = fint_of_nat x 0
 
 (* byte strings: "-" empty, r<hh>x<len> a run of one byte, else hex *)
 let dec_bytes (s : string) : n list =
-  if s = "-" then []
+  if s = "-" || s = "_" then []          (* "_" = empty NON-nil slice on the Go side: same abstract value *)
   else if s.[0] = 'r' then begin
     let x = String.index s 'x' in
     let b = int_of_string ("0x" ^ String.sub s 1 (x - 1)) in
